@@ -468,7 +468,12 @@ func checkDamaged(run *hx.Run, b *base, kind string, mustReject bool, res result
 
 // ---- every truncation point of the plain tar
 
+func (b *base) register(run *hx.Run) {
+	run.Line("base "+encMembers(b.s.ms), fmt.Sprintf("ok n=%d total=%d", len(b.s.ms), len(b.tarB)))
+}
+
 func runTruncations(run *hx.Run, b *base, step int) {
+	b.register(run)
 	lde := b.lastDataEnd()
 	for cut := 0; cut <= len(b.tarB); cut += step {
 		mut := b.tarB[:cut]
@@ -512,6 +517,7 @@ func flipVals(r *hx.RNG, old byte, all bool) []byte {
 // runFlips changes every `step`-th position. corrVals values per position go through the model
 // (bflip line); all values go through the monitors.
 func runFlips(run *hx.Run, r *hx.RNG, b *base, step int, all bool, corrVals int) {
+	b.register(run)
 	baseView := viewStr(b.s)
 	mut := append([]byte(nil), b.tarB...)
 	for pos := 0; pos < len(b.tarB); pos += step {
@@ -615,8 +621,8 @@ func emitRead(run *hx.Run, tarB []byte) (result, stream, string) {
 	return res, sv, op
 }
 
-var strangeNames = []string{"extra", "meta.json ", " meta.json", "META.JSON", "./state.bin", "state.bin/", "meta.jsonx", "meta.jso", "sha256sums",
-	"SHA256SUMS.sig", "dir/meta.json", "..", "é", "state.bin\x00x", strings.Repeat("n", 101), strings.Repeat("d/", 80) + "state.bin"}
+var strangeNames = []string{"extra", "meta.json ", " meta.json", "META.JSON", "./state.bin", "meta.jsonx", "meta.jso", "sha256sums",
+	"SHA256SUMS.sig", "dir/meta.json", "..", "é", strings.Repeat("n", 101), strings.Repeat("d/", 80) + "state.bin"}
 
 func runMemberMutations(run *hx.Run, r *hx.RNG, b *base) {
 	es := entriesOf(b)
@@ -943,8 +949,7 @@ func emitGz(run *hx.Run, b *base, gz []byte, alsoRead bool) (result, string) {
 }
 
 func runGz(run *hx.Run, r *hx.RNG, b *base, gz []byte, posStep int, truncStep int) {
-	// register the base with the model again (the gz ops refer to it as @)
-	run.Line("base "+encMembers(b.s.ms), fmt.Sprintf("ok n=%d total=%d", len(b.s.ms), len(b.tarB)))
+	b.register(run) // the gz ops refer to it as @
 	res, op := emitGz(run, b, gz, true)
 	checkDamaged(run, b, "gzip-intact", false, res, op)
 	if !res.ok {
@@ -1078,7 +1083,7 @@ func makeRaft() (*raft.Raft, *recFSM) {
 // the saved bytes.
 func runRestore(run *hx.Run, r *hx.RNG, n int) {
 	ra, fsm := makeRaft()
-	defer ra.Shutdown().Error()
+	defer func() { ra.Shutdown().Error() }()
 	logger := hclog.NewNullLogger()
 	for i := 0; i < n; i++ {
 		state := genState(r, hx.Pick(r, []int{0, 1, 300, 512, 2000}))
